@@ -112,7 +112,7 @@ CHECKS["C12"] = dict(
           "render_long_help and render_usage are rendered at many widths under catch_unwind and judged (no panic, no run of spaces beyond "
           "the layout bound, visible items in their section, hidden items nowhere, usage line of the right level); divergent renderings are "
           "judged by Trace_Help.tla."),
-    ref="§5.C12", note="Pixel-exact layout and custom templates are not judged; mentions are located by sentinel substrings.",
+    ref="§5.C12", note="Pixel-exact layout is not judged; three custom templates are judged for panics, padding and hidden items only (the listing clauses are stated for the default template); mentions are located by sentinel substrings.",
     technique="TLA+ spec (HelpModel.tla) model-checked with TLC; TLC-generated expectations replayed on the real help renderer at many widths; divergent renderings judged by a TLA+ trace spec")
 CHECKS["C18"] = dict(
     text=("Complete.tla states what the dynamic completion engine must and may offer against the *parser specification's* view of the words "
